@@ -338,7 +338,7 @@ func (m *collection) ExecuteBatch(bIn Batch,
 	m.m.Lock()
 
 	for m.stackDirtyTop != nil &&
-		len(m.stackDirtyTop.a) >= maxPreMergerBatches {
+		m.stackDirtyTop.numBatches >= maxPreMergerBatches {
 		if m.isClosed() {
 			m.m.Unlock()
 			return ErrClosed
@@ -361,6 +361,14 @@ func (m *collection) ExecuteBatch(bIn Batch,
 	m.invalidateLatestSnapshotLOCKED()
 
 	stackDirtyTop := m.buildStackDirtyTop(b, m.stackDirtyTop)
+
+	// Count batches, not top-level segments: a batch that only touches
+	// child collections adds no top-level segment but is held for the
+	// merger all the same.
+	stackDirtyTop.numBatches = 1
+	if m.stackDirtyTop != nil {
+		stackDirtyTop.numBatches = m.stackDirtyTop.numBatches + 1
+	}
 
 	prevStackDirtyTop := m.stackDirtyTop
 	m.stackDirtyTop = stackDirtyTop
